@@ -47,6 +47,11 @@ def run_job(job):
                     if "/" not in n and n.rsplit(".", 1)[-1] in ("ttf", "otf")
                 }
                 r["label"] = op.get("label")
+                try:  # probe: how often the pngquant wrapper took its "pngquant gave up, reuse the input" path
+                    with open(os.path.join(w.side, "inv%d.steps.log" % r["inv"]), "rb") as f:
+                        r["pngquant_giveups"] = f.read().count(b"Reuse ")
+                except OSError:
+                    r["pngquant_giveups"] = 0
                 r["now"] = w.now
                 if r["rc"] != 0 or job.get("keep_tails"):
                     r["steps_tail"] = w.step_log_tail(r["inv"])
